@@ -187,3 +187,50 @@ Proof.
   - constructor; [split; cbn; auto|apply IH; auto].
 Qed.
 End Align.
+
+Section Align2.
+Context {A B : Type}.
+Implicit Types (R : dkey -> A -> B -> Prop).
+
+Lemma aligned_weaken R R' (l : list (dkey * A)) (m : list (dkey * B)) :
+  aligned R l m -> (forall x y, In x l -> R (fst x) (snd x) y -> R' (fst x) (snd x) y) -> aligned R' l m.
+Proof.
+  induction 1 as [|x y l m [E H] F IH]; intros W; constructor.
+  - split; auto. apply W; auto. now left.
+  - apply IH. intros; apply W; auto. now right.
+Qed.
+Lemma aligned_upd2 R R' k f g (l : list (dkey * A)) (m : list (dkey * B)) : aligned R l m ->
+  (forall k' a b, R k' a b -> R' k' a b) ->
+  (forall a b, lookup k l = Some a -> lookup k m = Some b -> R k a b -> R' k (f a) (g b)) ->
+  aligned R' (upd k f l) (upd k g m).
+Proof.
+  induction 1 as [|[k1 a1] [k2 b1] l m [E H] F IH]; cbn [upd]; intros W U; [constructor|].
+  cbn in E, H; subst k2. destruct (keqb k k1) eqn:EE.
+  - apply keqb_eq in EE; subst k1. constructor.
+    + split; auto. cbn. apply U; cbn; rewrite ?keqb_refl; auto.
+    + eapply aligned_weaken; eauto.
+  - constructor; [split; cbn; auto|]. apply IH; auto. intros a b La Lb. apply U; cbn; rewrite EE; auto.
+Qed.
+Lemma aligned_upd_l2 R R' k f (l : list (dkey * A)) (m : list (dkey * B)) : ksorted l -> aligned R l m ->
+  (forall k' a b, k' <> k -> R k' a b -> R' k' a b) ->
+  (forall a b, lookup k l = Some a -> R k a b -> R' k (f a) b) ->
+  aligned R' (upd k f l) m.
+Proof.
+  intros S. revert m. induction S as [|k1 a1 l F S IH]; intros m Al W U; inversion Al as [|x [k2 b1] l' m' [E H] Fa]; subst; cbn [upd].
+  - constructor.
+  - cbn in E, H; subst k2. destruct (keqb k k1) eqn:EE.
+    + apply keqb_eq in EE; subst k1. constructor.
+      * split; auto. cbn. apply U; cbn; rewrite ?keqb_refl; auto.
+      * eapply aligned_weaken; eauto. intros x y Hin HR. apply W; auto.
+        rewrite Forall_forall in F. specialize (F _ Hin). intros EQ. rewrite EQ in F. apply kltb_neq in F. rewrite keqb_refl in F. discriminate.
+    + constructor.
+      * split; cbn; auto. apply W; auto. apply keqb_neq in EE. auto.
+      * apply IH; auto. intros a b La. apply U; cbn; rewrite EE; auto.
+Qed.
+End Align2.
+
+Lemma ksorted_filter {A} (P : dkey * A -> bool) l : ksorted l -> ksorted (filter P l).
+Proof.
+  induction 1 as [|k v l F S IH]; cbn; [constructor|]. destruct (P (k, v)); auto. constructor; auto. now apply Forall_filter.
+Qed.
+
